@@ -63,7 +63,23 @@ def tryReverseExpansion (s : Sc) : Nat → List Item → Sc × List Item
       if ok then tryReverseExpansion s' budget rest else (s', out)
     | _ => (s, out)
 
-/-- one round of the loop of `ListNode._expand_shortcuts`; `bound` = the cache holds a shortcut at this site -/
+/-- one round of the loop of `ListNode._expand_shortcuts` for a site no (usable) shortcut is bound to -/
+def stepPlain (st : PassSt) (v : Leaf) : PassSt :=
+  let i := st.i
+  match st.cur, st.out with
+  | true, Item.sc sid s :: rest =>
+    let (ok, s1) := consumeEdgeNode s v true (i == st.lastEnd + 1 && st.lastEnd != 0)
+    if ok then { st with out := Item.sc sid s1 :: rest, i := i + 1 }
+    else
+      let (out', cur') := checkForOrphanJump (Item.sc sid s1 :: rest) v
+      { out := out', cur := cur', lastEnd := i - 1, i := i + 1 }
+  | _, _ =>
+    let (out', cur') := checkForOrphanJump st.out v
+    { st with out := out', cur := cur', i := i + 1 }
+
+/-- one round of the loop of `ListNode._expand_shortcuts`; `bound` = the cache holds a shortcut at this site.
+    A bound shortcut that cannot take the value at its own site is dropped and the round goes on as if no
+    shortcut were bound here. -/
 def stepPass (st : PassSt) (v : Leaf) (bound : Option (Int × Sc)) : PassSt :=
   let i := st.i
   match bound with
@@ -74,20 +90,8 @@ def stepPass (st : PassSt) (v : Leaf) (bound : Option (Int × Sc)) : PassSt :=
       let budget := if i > 1 then (i - 1) - lastEnd else 0
       let (s2, out2) := tryReverseExpansion s1 budget st.out
       { out := Item.sc sid s2 :: out2, cur := true, lastEnd := lastEnd, i := i + 1 }
-    else
-      let (out', cur') := checkForOrphanJump st.out v
-      { out := out', cur := cur', lastEnd := lastEnd, i := i + 1 }
-  | none =>
-    match st.cur, st.out with
-    | true, Item.sc sid s :: rest =>
-      let (ok, s1) := consumeEdgeNode s v true (i == st.lastEnd + 1 && st.lastEnd != 0)
-      if ok then { st with out := Item.sc sid s1 :: rest, i := i + 1 }
-      else
-        let (out', cur') := checkForOrphanJump (Item.sc sid s1 :: rest) v
-        { out := out', cur := cur', lastEnd := i - 1, i := i + 1 }
-    | _, _ =>
-      let (out', cur') := checkForOrphanJump st.out v
-      { st with out := out', cur := cur', i := i + 1 }
+    else stepPlain st v
+  | none => stepPlain st v
 
 /-- `ListNode._expand_shortcuts` -/
 def expandShortcuts : List (Leaf × Option (Int × Sc)) → PassSt → PassSt
@@ -119,16 +123,18 @@ def updateWithNewValues (shortcuts : List (Int × Sc)) (vals : List Leaf) : List
     let st := expandShortcuts (bindShortcuts shortcuts vals) { out := [], cur := false, lastEnd := 0, i := 0 }
     popTrailingJump st.out.reverse
 
-/-- `ListNode._keep_own_nodes`, the positional part: the original node at a position stands in for a foreign node
-    that holds exactly its value and type -/
-def keepZip : List Leaf → List Leaf → List Leaf
+/-- `ListNode._keep_own_nodes`, the loop: a new node that is not a node of the list is replaced by the original node
+    at its position when that one holds exactly its value and type and is not handed in itself -/
+def keepZip (ownIds newIds : List Nat) : List Leaf → List Leaf → List Leaf
   | _, [] => []
   | [], vs => vs
-  | o :: own, v :: vs => (if o.ty == v.ty && o.val == v.val then o else v) :: keepZip own vs
+  | o :: own, v :: vs =>
+    (if !ownIds.contains v.id && !newIds.contains o.id && o.ty == v.ty && o.val == v.val then o else v)
+      :: keepZip ownIds newIds own vs
 
 /-- `ListNode._keep_own_nodes`; `own` = `list(self)` before the update -/
 def keepOwnNodes (own vals : List Leaf) : List Leaf :=
-  if vals.any (fun v => own.any (fun o => o.id == v.id)) then vals else keepZip own vals
+  keepZip (own.map (·.id)) (vals.map (·.id)) own vals
 
 /-- `ListNode.update_with_new_values` as a whole: own nodes stand in for copies, then the list is rebuilt -/
 def updateWithNewValuesFull (shortcuts : List (Int × Sc)) (own vals : List Leaf) : List Item :=
